@@ -81,6 +81,12 @@ pub struct Cancel {
 #[derive(Clone, Debug, Serialize, Deserialize)]
 pub enum IncAct {
     Accept,
+    /// the application sits on the Incoming for a while before it accepts (other tasks, e.g. one that
+    /// closes the endpoint, run in between)
+    AcceptLate { us: u32 },
+    /// the application closes the endpoint while it holds the Incoming, then accepts it: the attempt
+    /// must not turn into a live connection
+    CloseThenAccept { code: u8 },
     Refuse,
     Retry,
     Ignore,
@@ -645,7 +651,9 @@ fn handle_released(ctx: &Ctx, ci: usize, side: usize, conn: bool) {
     if conn {
         s.conn_handles -= 1;
     }
-    if s.handles == 0 {
+    if s.handles == 0 && s.first_err.is_some() {
+        // the connection was already lost on this side (e.g. idle timeout): nothing is announced any more
+    } else if s.handles == 0 {
         // last handle: quinn closes the connection with code 0 and an empty reason
         s.closes.push(CloseRec { code: 0, reason: vec![], t: now, implicit: true });
         if m.trace {
@@ -756,6 +764,8 @@ pub struct RecvH {
     lost_by_illegal_read: bool,
     early: bool,
     zc: Option<quinn::Connection>,
+    /// the reset code a read on this handle has reported (received_reset() must agree with it)
+    reset_reported: Option<u64>,
 }
 
 impl RecvH {
@@ -771,7 +781,7 @@ impl RecvH {
         }
         let key = (ci, if early && !fwd && ctx.z_rejected() { raw | EARLY_BIT } else { raw }, fwd);
         ctx.m.borrow_mut().stream(key);
-        Self { r, ctx: ctx.clone(), ci, side, key, off: 0, unordered: false, ranges: vec![], terminal: false, no_implicit_stop: false, lost_by_illegal_read: false, early, zc: if early { conn.cloned() } else { None } }
+        Self { r, ctx: ctx.clone(), ci, side, key, off: 0, unordered: false, ranges: vec![], terminal: false, no_implicit_stop: false, lost_by_illegal_read: false, early, zc: if early { conn.cloned() } else { None }, reset_reported: None }
     }
     fn z_other(&self, kind: &str) {
         self.ctx.z_judge(self.early, &self.zc, self.ci, self.side, kind, false);
@@ -1278,6 +1288,9 @@ impl RecvH {
         self.terminal = true;
         self.no_implicit_stop = true;
         let code = code.into_inner();
+        if what != "received_reset" {
+            self.reset_reported = Some(code);
+        }
         let (resets, stops) = {
             let mut m = self.ctx.m.borrow_mut();
             let d = m.stream(self.key);
@@ -1923,6 +1936,19 @@ async fn exec_op(ctx: &Ctx, t: &mut Task, op: &Op) {
         Op::ReceivedReset { r, c } => {
             if let Some(i) = pick(*r, t.recvs.len()) {
                 let h = &mut t.recvs[i];
+                if let (true, Some(code)) = (h.terminal, h.reset_reported) {
+                    // a read on this handle has already reported the peer's reset: received_reset() is
+                    // ready at once and names the same code
+                    let mut fut = std::pin::pin!(h.r.received_reset());
+                    let w = noop_waker();
+                    let mut cx = Context::from_waker(&w);
+                    match fut.as_mut().poll(&mut cx) {
+                        Poll::Ready(Ok(Some(c2))) if c2.into_inner() == code => ctx.label("received-reset-after-read-reset"),
+                        Poll::Ready(Err(quinn::ResetError::ConnectionLost(_))) | Poll::Ready(Err(quinn::ResetError::ZeroRttRejected)) => {}
+                        other => ctx.fail("c18/integrity/received-reset-disagrees-with-read", format!("a read on {:?} failed with Reset({code}); received_reset() on the same handle then gave {other:?}", h.key)),
+                    }
+                    return;
+                }
                 if h.terminal {
                     return;
                 }
@@ -2469,12 +2495,40 @@ async fn acceptor(ctx: Ctx, ep: EpH) {
         if matches!(act, IncAct::Retry) && !inc.may_retry() {
             act = IncAct::Accept;
         }
-        if matches!(act, IncAct::Accept) && started.contains(&ci) {
+        if matches!(act, IncAct::Accept | IncAct::AcceptLate { .. } | IncAct::CloseThenAccept { .. }) && started.contains(&ci) {
             // a second connection for the same client attempt would need a second server program
             act = IncAct::Ignore;
         }
+        if let IncAct::AcceptLate { us } = act {
+            sleep(&ctx.sim, us as u64 * 1000).await;
+            ctx.label("accept-late");
+            act = IncAct::Accept;
+        }
+        let mut after_close = false;
+        if let IncAct::CloseThenAccept { code } = act {
+            let code = code as u64;
+            ctx.m.borrow_mut().eps[ep.idx].closes.push(CloseRec { code, reason: code_reason(code), t: now, implicit: false });
+            ep.e.close(VarInt::from_u32(code as u32), &code_reason(code));
+            ctx.label("endpoint-close-then-accept");
+            after_close = true;
+            act = IncAct::Accept;
+        }
         match act {
+            IncAct::AcceptLate { .. } | IncAct::CloseThenAccept { .. } => unreachable!(),
             IncAct::Accept => match inc.accept() {
+                Ok(connecting) if after_close => {
+                    // accepted on a closed endpoint: the handshake must not complete
+                    started.insert(ci);
+                    let pend = PendOp { kind: "handshake", conn: Some((ci, 1)), stream: None, off: 0, since: now, wkey: None };
+                    let (out, p) = ctx.run_owned(pend, &no_cancel(), connecting).await;
+                    match out {
+                        Some(Ok(conn)) => {
+                            ctx.fail("c18/teardown/connection-established-after-endpoint-close", format!("Endpoint::close() was called while the application held an Incoming; accepting it afterwards produced a live connection (close_reason {:?}, open_connections {})", conn.close_reason(), ep.e.open_connections()));
+                        }
+                        Some(Err(e)) => ctx.check_conn_err(ci, 1, &e, &p),
+                        None => {}
+                    }
+                }
                 Ok(connecting) => {
                     started.insert(ci);
                     ctx.m.borrow_mut().app_tasks += 1;
@@ -3062,7 +3116,7 @@ pub fn arb_scenario() -> impl Strategy<Value = Scenario> {
     (
         (any::<u64>(), arb_net(), arb_cfg(), prop_oneof![4 => Just(false), 1 => Just(true)]),
         (
-            proptest::collection::vec(prop_oneof![12 => Just(IncAct::Accept), 1 => Just(IncAct::Refuse), 2 => Just(IncAct::Retry), 1 => Just(IncAct::Ignore), 1 => Just(IncAct::Drop)], 1..5),
+            proptest::collection::vec(prop_oneof![12 => Just(IncAct::Accept), 2 => prop_oneof![1u32..2_000, 2_000u32..400_000].prop_map(|us| IncAct::AcceptLate { us }), 1 => (0u8..5).prop_map(|code| IncAct::CloseThenAccept { code }), 1 => Just(IncAct::Refuse), 2 => Just(IncAct::Retry), 1 => Just(IncAct::Ignore), 1 => Just(IncAct::Drop)], 1..5),
             proptest::collection::vec(arb_cancel(), 0..4),
         ),
         proptest::collection::vec(arb_conn(), 1..=2),
